@@ -1,8 +1,8 @@
 (** The C02 lemmas for stacks reachable by a history of operations ([reachable] implies the invariant [wf]). *)
-From Coq Require Import List Bool Arith ZArith NArith QArith Qcanon Lia Permutation.
+From Coq Require Import List Bool Arith ZArith NArith QArith Qcanon Lia Permutation Sorted.
 From DV Require Import Common.Res Common.Str Stack.Model Stack.Spec Stack.ProofsShape Stack.ProofsInv
-  Orient.Model Orient.Spec Orient.ProofsAff
-  Conv.Geom Conv.GeomSpec Conv.ProofsGeomData Conv.ProofsGeomSrc Conv.ProofsGeomInv.
+  Stack.Sort Orient.Model Orient.Spec Orient.ProofsAff
+  Conv.Geom Conv.GeomSpec Conv.ProofsGeomAff Conv.ProofsGeomData Conv.ProofsGeomSrc Conv.ProofsGeomInv.
 Import ListNotations.
 Local Open Scope nat_scope.
 
@@ -43,15 +43,59 @@ Lemma geometry_reachable : forall gs st code embed st' go,
 Proof. intros gs st code embed st' go Hr. exact (conv_geometry gs st code embed st' go (reachable_wf st Hr)). Qed.
 
 Lemma geometry_sources_reachable : forall gs st code embed st' go,
-  reachable st -> shape_dirty st = true -> gfiles_ok gs st -> sources_regular gs st ->
+  reachable st -> gfiles_ok gs st -> positions_ok gs st -> sources_regular gs st ->
   conv_geom gs st code embed = (st', Ok go) ->
   forall S T V r c,
     0 < S -> 0 < T -> 0 < V -> o_shape (go_nifti go) = grid_shape r c S T V ->
     on_line gs (go_ord0 go) S.
 Proof.
-  intros gs st code embed st' go Hr Hd Hok Hs H S T V r c HS HT HV Hsh.
-  exact (sources_on_line gs st code embed st' go (reachable_wf st Hr) Hd Hs H S T V r c HS HT HV Hsh Hok).
+  intros gs st code embed st' go Hr Hok Hp Hs H.
+  exact (sources_on_line gs st code embed st' go (reachable_wf st Hr) (reachable_clean_sorted st Hr) Hok Hp Hs H).
 Qed.
+
+Lemma geometry_irregular_reachable : forall gs st code embed st' go d,
+  reachable st -> gfiles_ok gs st -> positions_ok gs st -> sources_line gs st d ->
+  conv_geom gs st code embed = (st', Ok go) ->
+  forall S T V r c,
+    0 < S -> 0 < T -> 0 < V -> o_shape (go_nifti go) = grid_shape r c S T V ->
+    let P := ssort qc_leb (pos_vals st) in
+    length P = S /\ StronglySorted Qclt P /\
+    (forall s t v g, s < S -> t < T -> v < V ->
+       file_at gs (go_ord0 go) (cell_pos S T s t v) = Some g -> (slice_indicator g == pos_at P s)%Q) /\
+    (forall s t v i j g idx',
+       s < S -> t < T -> v < V ->
+       file_at gs (go_ord0 go) (cell_pos S T s t v) = Some g ->
+       apply_aff (go_T go) idx' = Some (cell_idx (length (grid_shape r c S T V)) i j s t v) ->
+       forall q, q < 3 ->
+         (vget (world (go_aff go) idx') q + sg q * (slice_dev P s * vget d q) == vget (ras (pixel_pos g i j)) q)%Q) /\
+    (forall s, (slice_dev P s == gap_excess P s)%Q).
+Proof.
+  intros gs st code embed st' go d Hr Hok Hp Hl H S T V r c HS HT HV Hsh P.
+  pose proof (reachable_wf st Hr) as Hwf.
+  destruct (sources_dev gs st code embed st' go d Hwf (reachable_clean_sorted st Hr) Hok Hp Hl H S T V r c HS HT HV Hsh)
+    as (HPl & HPs & Hsi & Hdev).
+  split; [exact HPl|]. split; [exact HPs|]. split; [|split].
+  - intros s t v g Hs Ht Hv Hg. rewrite (Hsi _ _ Hg), cell_pos_mod by exact Hs. reflexivity.
+  - intros s t v i j g idx' Hs Ht Hv Hg Ha q Hq.
+    pose proof (conv_geometry_dev gs st code embed st' go Hwf Hok H S T V r c HS HT HV Hsh _ Hdev
+                  s t v i j g idx' Hs Ht Hv Hg Ha q Hq) as G.
+    cbv beta in G. rewrite cell_pos_mod in G by exact Hs. exact G.
+  - intros s. apply slice_dev_sum.
+Qed.
+
+Lemma values_rescaled_reachable : forall gs st code embed st' go (rs : gfile -> rescale),
+  reachable st -> gfiles_ok gs st ->
+  conv_geom gs st code embed = (st', Ok go) ->
+  (forall g, In g (go_files go) -> rescaled_ok g (rs g) = true) ->
+  exists S T V r c,
+    0 < S /\ 0 < T /\ 0 < V /\ o_shape (go_nifti go) = grid_shape r c S T V /\
+    forall s t v i j, s < S -> t < T -> v < V -> i < r -> j < c ->
+      exists g x z idx',
+        file_at gs (go_ord0 go) (cell_pos S T s t v) = Some g /\ stored_at (rs g) i j = Some x /\
+        in_bounds (ashape (go_data go)) idx' = true /\
+        apply_aff (go_T go) idx' = Some (cell_idx (length (grid_shape r c S T V)) i j s t v) /\
+        aget (go_data go) idx' = Some z /\ (inject_Z z == rescaled_val (rs g) x)%Q.
+Proof. intros gs st code embed st' go rs Hr. exact (conv_values_rescaled gs st code embed st' go rs (reachable_wf st Hr)). Qed.
 
 Lemma invariance_reachable : forall gs st c1 c2 e1 e2 s1 s2 o1 o2,
   reachable st ->
